@@ -179,7 +179,7 @@ CompleteAt(s, pc) ==
      \/ /\ o \in OP_PUSHDATA1..OP_PUSHDATA4
         /\ pc + HdrLen(o) <= RLen(s)
         /\ ~Huge(Field(s, pc))
-        /\ pc + HdrLen(o) + LEVal(Field(s, pc)) <= RLen(s)
+        /\ LEVal(Field(s, pc)) <= RLen(s) - pc - HdrLen(o)      \* (written so that 2^31 - 1 does not overflow)
 
 -----------------------------------------------------------------------------
 (* Lemmas (TLC checks them for every data string of MC_ScriptPush).          *)
